@@ -69,7 +69,7 @@ Tag(name, dd, ref) ==
      nlin |-> IF name \in OpenWithNl THEN nlin ELSE 0]
 
 \* tags that are {% ... %} blocks (trim_blocks applies); the others are {{ ... }}
-VarTags == {"callm", "caller", "callimp", "raise", "badexpr", "badchar", "badclose"}
+VarTags == {"callm", "caller", "callimp", "outvar", "raise", "badexpr", "badchar", "badclose"}
 
 (* ---- wrappers ------------------------------------------------------------- *)
 IsMulti(w) == w \in {"include", "extends", "import"}        \* the content moves to a new template
@@ -152,8 +152,9 @@ Spread(tags) ==
     ELSE IF Len(tags) = 1 THEN tags
     ELSE <<tags[1]>> \o GapItems(IF tags[2].name = probe THEN pgap ELSE gap) \o Spread(Tail(tags))
 
-\* (text after the last tag puts top-level content on the line of a closing tag)
-Layout(tags) == [x \in 1..pre |-> NL] \o Spread(tags) \o <<TXT, NL>>
+\* an output expression directly after the last tag puts a labelled top-level statement on the line
+\* of a closing tag (blocks are generated after the root function: their lines come out of order)
+Layout(tags) == [x \in 1..pre |-> NL] \o Spread(tags) \o <<Tag("outvar", 0, ""), NL>>
 
 \* the auxiliary parent of a childblock: declares the block, nothing else
 AuxTpls(ws) ==
